@@ -326,7 +326,7 @@ pub fn run(tier: &Tier, args: &[String]) -> i32 {
     out.assumptions = vec![
         "roll steps are the API operations init/activate plus the synchronisations that the task queue performs; in the pumped configurations triggered tasks run to quiescence after each operation, the stepwise configuration (thorough) makes every task an explicit step".into(),
         "completion is checked by a fixed continuation (settle, activate, settle) x2 executed on a forked copy of every reached state".into(),
-        "schedule dimension (threads) is covered by C18's harness, not here".into(),
+        "schedule dimension: the activation request and a parent synchronisation of the rolling CA as two threads under the controlled scheduler (engine E2, see coverage.interleavings); other thread combinations are C18's".into(),
     ];
     let depth = crate::report::arg_value(args, "--depth")
         .and_then(|d| d.parse().ok())
@@ -389,5 +389,193 @@ pub fn run(tier: &Tier, args: &[String]) -> i32 {
         Spec { property: "C04".into(), configs, depth, wall_cap_s: cap, procs: 16, min_states: 20 },
         &mut out,
     );
+    // the schedule dimension: the activation request against a running
+    // synchronisation (engine E2)
+    if crate::report::arg_value(args, "--replay").is_none() {
+        let inter = run_interleavings(tier, &mut out);
+        if let Some(c) = out.coverage.as_object_mut() {
+            c.insert("interleavings".into(), inter);
+        }
+    }
     out.finish()
+}
+
+//------------ interleavings of the roll steps with a running sync -----------
+
+/// One execution: a parent synchronisation of the rolling CA (several
+/// request/response exchanges, one CA command each) and the activation
+/// request run as two threads under the controlled scheduler.
+fn interleaving_exec(template: &std::path::Path, variant: &str, prefix: &[usize]) -> crate::e2::ExecOutcome {
+    use crate::world::{ca, parent_h};
+    let mut out = crate::e2::ExecOutcome::default();
+    if let Err(e) = crate::e3::copy_dir(template, std::path::Path::new(".")) {
+        out.violations.push(("machinery".into(), format!("copy: {e}")));
+        return out;
+    }
+    let cfg = c01::world_cfg(100, 90);
+    let mut w = match World::reopen(cfg) {
+        Ok(w) => w,
+        Err(e) => {
+            out.violations.push(("machinery".into(), e.to_string()));
+            return out;
+        }
+    };
+    // state: roll initiated and the new key certified; then the parent
+    // changes the entitlement, which the CA has not seen yet
+    let setup: Vec<Op> = match variant {
+        "activate-vs-sync" => vec![Op::RollInit { ca: "ca".into() }],
+        _ => vec![],
+    };
+    for op in &setup {
+        let o = w.apply_pumped(op);
+        if !o.ok {
+            out.violations.push(("machinery".into(), format!("{op}: {:?}", o.err)));
+            return out;
+        }
+    }
+    if let Err(e) = w.settle() {
+        out.violations.push(("machinery".into(), e));
+        return out;
+    }
+    let o = w.apply(&Op::Entitle { parent: "parent".into(), child: "ca".into(), res: crate::ops::r3("AS65000-AS65004", "10.0.0.0/15", "2001:db8::/48") });
+    if !o.ok {
+        out.violations.push(("machinery".into(), format!("entitle: {:?}", o.err)));
+        return out;
+    }
+    // the CA learns about it (this creates the certificate requests for the
+    // new and for the current key); sending them is what the thread does
+    if let Err(e) = w.sync_parent("ca", "parent") {
+        out.violations.push(("machinery".into(), format!("first sync: {e}")));
+        return out;
+    }
+    let expected_vrps = |w: &World| -> Option<std::collections::BTreeSet<String>> {
+        let view = rp::view_from_lists(w).ok()?;
+        Some(rp::validate(w, &view).vrps.iter().map(|v| format!("{v:?}")).collect())
+    };
+    let before = expected_vrps(&w).unwrap_or_default();
+    let (k1, s1, a1) = (w.krill.clone(), w.slow.clone(), w.actor.clone());
+    let (k2, a2) = (w.krill.clone(), w.actor.clone());
+    let bodies: Vec<Box<dyn FnOnce() -> Vec<String> + Send>> = vec![
+        Box::new(move || {
+            vec![match k1.ca_manager().ca_sync_parent(&ca("ca"), 0, &parent_h("parent"), &a1, &s1) {
+                Ok(_) => "ok".into(),
+                Err(e) => format!("err: {e}"),
+            }]
+        }),
+        Box::new(move || {
+            vec![match k2.ca_manager().ca_keyroll_activate(ca("ca"), chrono::Duration::seconds(0), &a2, &k2) {
+                Ok(()) => "ok".into(),
+                Err(e) => format!("err: {e}"),
+            }]
+        }),
+    ];
+    let result = crate::e2::run_schedule(bodies, prefix, 400);
+    out.result = result.clone();
+    if let Some(d) = &result.deadlock {
+        out.violations.push(("deadlock".into(), d.clone()));
+        return out;
+    }
+    for o in result.outputs.iter().flatten() {
+        if o.starts_with("PANIC") {
+            out.violations.push(("panic".into(), o.clone()));
+        }
+    }
+    // no product may be lost at any instant: right after the two calls
+    // (background tasks first, they publish) every payload is still there
+    match w.pump() {
+        Err(f) => out.violations.push(("fatal".into(), f)),
+        Ok(_) => {
+            let now = expected_vrps(&w).unwrap_or_default();
+            let lost: Vec<&String> = before.iter().filter(|v| !now.contains(*v)).collect();
+            // (the entitlement change itself takes 10.1.0.0/16 away: payloads there may go)
+            let lost: Vec<&String> = lost.into_iter().filter(|v| !v.contains("10.1.")).collect();
+            if !lost.is_empty() {
+                out.violations.push(("product-lost".into(), format!("after the interleaved sync and activation these payloads are gone: {lost:?} (sync: {}, activate: {})", result.outputs[0].join(","), result.outputs[1].join(","))));
+            }
+            let ks = key_states(&w, "ca");
+            if ks.len() != 1 || ks.keys().any(|k| k != "0") {
+                out.violations.push(("class-dropped".into(), format!("the CA's resource classes are now {:?} (it had exactly class 0)", ks.keys().collect::<Vec<_>>())));
+            }
+        }
+    }
+    // and the roll finishes
+    for _ in 0..2 {
+        if let Err(f) = w.settle() {
+            out.violations.push(("fatal".into(), f));
+            return out;
+        }
+        let ks = key_states(&w, "ca");
+        if ks.values().all(|(k, open)| k == "active" && !open) {
+            break;
+        }
+        let _ = w.apply_pumped(&Op::RollActivate { ca: "ca".into() });
+    }
+    let _ = w.settle();
+    let ks = key_states(&w, "ca");
+    for (rcn, (kind, open)) in &ks {
+        if kind != "active" || *open {
+            out.violations.push(("roll-not-completed".into(), format!("class {rcn} is in state '{kind}' (open request: {open}) after the interleaving, settle + activate + settle twice")));
+        }
+    }
+    if let Err(e) = rp::full_check(&w) {
+        out.violations.push(("rp".into(), format!("{:?}", e.iter().take(3).collect::<Vec<_>>())));
+    }
+    out.outcome = format!("sync: {} | activate: {}", result.outputs[0].join(",").lines().next().unwrap_or(""), result.outputs[1].join(",").lines().next().unwrap_or(""));
+    out
+}
+
+/// Explores the interleavings; returns findings and a coverage record.
+pub fn run_interleavings(tier: &Tier, out: &mut Outcome) -> serde_json::Value {
+    let root = crate::e1run::scratch_root().with_extension("c04i");
+    let _guard = crate::e1run::ScratchGuard(root.clone());
+    let _ = std::fs::remove_dir_all(&root);
+    std::fs::create_dir_all(&root).unwrap();
+    let template = root.join("template");
+    std::fs::create_dir_all(&template).unwrap();
+    let (built, _) = crate::e3::fork_in_dir(&template, || {
+        c01::build_w3(c01::world_cfg(100, 90)).and_then(|mut w| {
+            let o = w.apply_pumped(&Op::Roa { ca: "ca".into(), add: vec![c01::ROA_A.into(), c01::ROA_B.into()], del: vec![] });
+            if !o.ok {
+                return Err(format!("{:?}", o.err));
+            }
+            w.settle()?;
+            Ok(crate::keys::persistent_used())
+        })
+    });
+    let Some(Ok(keys_used)) = built else {
+        out.machinery_errors.push(format!("interleavings: template build failed: {built:?}"));
+        return serde_json::json!({});
+    };
+    crate::keys::skip(keys_used + 8);
+    let bound = if tier.thorough { 2 } else { 1 };
+    let xroot = root.join("x");
+    std::fs::create_dir_all(&xroot).unwrap();
+    let tpl = template.clone();
+    let stats = crate::e2::explore(&xroot, bound, if tier.thorough { 20_000 } else { 1_500 }, 16, std::time::Duration::from_secs(if tier.thorough { 900 } else { 40 }), false, &|prefix| {
+        interleaving_exec(&tpl, "activate-vs-sync", prefix)
+    });
+    for m in &stats.machinery {
+        out.machinery_errors.push(format!("interleavings: {m}"));
+    }
+    let mut seen = std::collections::BTreeSet::new();
+    for (prefix, kind, detail, result) in &stats.violations {
+        if kind == "machinery" {
+            out.machinery_errors.push(format!("interleavings: {detail}"));
+            continue;
+        }
+        let key = format!("{kind}|{}", crate::e1::normalize(detail));
+        if !seen.insert(key.clone()) {
+            continue;
+        }
+        out.findings.push(crate::report::Finding {
+            signature: format!("{key} @ interleaving=activate-vs-sync"),
+            text: format!("[interleaving activate-vs-sync] {kind}: {detail}; schedule {prefix:?}"),
+            replay: serde_json::json!({"part": "interleaving", "variant": "activate-vs-sync", "schedule": prefix, "trace": result.trace, "outputs": result.outputs, "kind": kind, "detail": detail}),
+        });
+    }
+    serde_json::json!({
+        "variant": "activate-vs-sync: a parent synchronisation of the rolling CA (one CA command per exchange) and the activation request as two threads",
+        "preemption_bound": bound, "schedules": stats.executions, "choice_points": stats.choice_points,
+        "distinct_outcomes": stats.distinct_outcomes, "cap_hit": stats.capped, "schedules_not_followed_exactly": stats.diverged,
+    })
 }
